@@ -234,3 +234,78 @@ def judge(traces, module="RunObs_Trace", timeout=900):
         raise C.MachineryError("TLC judge failed: %d/%d verdicts; %s" % (
             len(verdicts), len(traces), (res.error or res.output[-2000:])))
     return verdicts, res
+
+
+# --------------------------------------------------------------------------- implementation-shaped validation
+
+
+def to_exec_trace(tid, scn, res):
+    """FakeKernel events -> trace for Executor_Trace.tla (None when the scenario is outside what that module models)."""
+    g = scn.get("_g")
+    cfg, num = build_cfg(scn)
+    if not g or cfg["stop"] or scn.get("abort_at") is not None or scn.get("abort_after_fork") is not None:
+        return None
+    if scn.get("git") or any(e["e"] in ("Kill", "Abort", "Hang") for e in res["events"]):
+        return None
+    if scn["sched"].get("unrelated") or scn.get("dup_spelling"):
+        return None
+    evs = []
+    for e in res["events"]:
+        k = e["e"]
+        if k == "Line":
+            kind = e["kind"]
+            t = num.get(e["t"], 0)
+            if kind == "cached":
+                evs.append({"e": "Cached", "t": t})
+            elif kind == "running":
+                evs.append({"e": "Running", "t": t, "k": e["k"]})
+            elif kind == "skipping":
+                evs.append({"e": "Skipping", "t": t, "k": e["k"]})
+            elif kind == "success":
+                evs.append({"e": "Success", "t": t})
+            elif kind == "failed":
+                evs.append({"e": "Failed", "t": t})
+        elif k == "Spawn":
+            slot = e["env"].get("COND_SLOT")
+            ot, ots, ok = parse_out(e["env"].get("COND_OUT") or "", os.path.dirname(os.path.dirname(e["env"].get("COND_OUT") or "/x/y"))
+                                    if False else _root_of(e), num)
+            evs.append({"e": "Spawn", "t": num.get(e["t"], 0), "slot": int(slot) if slot not in (None, "") else -1, "ts": ots})
+        elif k == "SpawnFail":
+            evs.append({"e": "SpawnFail", "t": num.get(e["t"], 0)})
+        elif k == "Exit":
+            evs.append({"e": "Exit", "t": num.get(e["t"], 0), "c": 0 if e.get("code") == 0 else 1})
+        elif k == "Handler":
+            evs.append({"e": "Handler"})
+        elif k == "Return":
+            st = e["exit"]
+            evs.append({"e": "Return", "exit": st if isinstance(st, int) else -1})
+    gg = dict(g)
+    gg["par"] = [bool(x) for x in g["par"]]
+    gg["cachedTs"] = list(g.get("cachedTs") or [0] * g["n"])
+    gg["again"] = bool(g.get("again"))
+    return {"id": tid, "g": gg, "jobs": cfg["jobs"], "stop": False, "events": evs}
+
+
+def _root_of(e):
+    t = e["t"]
+    pkg = t[2:].split(":")[0]
+    return e["cwd"][: len(e["cwd"]) - len(pkg)].rstrip("/") if pkg else e["cwd"]
+
+
+def validate_exec(traces, timeout=1800):
+    """-> {id: (reached, n)}: how far each trace could be consumed as a behaviour of Executor.tla."""
+    if not traces:
+        return {}, None
+    with C.Scratch("xval") as d:
+        f = os.path.join(d, "traces.ndjson")
+        with open(f, "w") as fh:
+            for t in traces:
+                fh.write(json.dumps(t) + "\n")
+        res = C.run_tlc("Executor_Trace.tla", cfg="Executor_Trace.cfg", workers=1, timeout=timeout, env={"TRACE_FILE": f}, dfs=True)
+    out = {}
+    for v in C.tlc_printed_json(res):
+        if isinstance(v, dict) and "id" in v:
+            out[v["id"]] = (v["reached"], v["n"])
+    if res.error or res.timed_out or len(out) != len(traces):
+        raise C.MachineryError("Executor_Trace validation failed (%d/%d): %s" % (len(out), len(traces), res.error or res.output[-2000:]))
+    return out, res
